@@ -379,6 +379,22 @@ def execute(sc, workdir):
                 info=info)
 
 
+def models(tier, seed):
+    """D_Bist: the checker's command FSM / data FSM / reservation + data FIFOs over a memory with every stall and latency
+    schedule and every corruption set (small constants); observer = BistStep of R_Bist.  Not lock-step bound to the
+    netlist, hence LEVEL stays "exploration"."""
+    main = "MC_Bist_thorough.cfg" if tier == "thorough" else "MC_Bist_quick.cfg"
+    return [dict(module="MC_Bist", cfg=main, workers=(8 if tier == "thorough" else 4), timeout=2400, label="D_Bist " + main, xmx="8g"),
+            dict(module="MC_Bist", cfg="MC_Bist_neg_beats.cfg", workers=2, timeout=600, expect_violation=True, xmx="2g",
+                 label="D_Bist negative control: errors counts beats"),
+            dict(module="MC_Bist", cfg="MC_Bist_neg_ceaddr.cfg", workers=2, timeout=600, expect_violation=True, xmx="2g",
+                 label="D_Bist negative control: checker address generator free-running"),
+            dict(module="MC_Bist", cfg="MC_Bist_cover_errors.cfg", workers=2, timeout=600, expect_violation=True, xmx="2g",
+                 label="D_Bist cover goal reachable: a run ends with errors > 0"),
+            dict(module="MC_Bist", cfg="MC_Bist_cover_full.cfg", workers=2, timeout=600, expect_violation=True, xmx="2g",
+                 label="D_Bist cover goal reachable: reservation FIFO full while the command FSM runs")]
+
+
 def post(ctx, results, mresults):
     cells, strata = set(), {}
     for sc, r in results:
